@@ -6,6 +6,7 @@ CONSTANTS
   AllowDupStart = FALSE
   AllowSilentInit = FALSE
   AllowRestartRace = FALSE
+  AllowLateStart = FALSE
   AllowDoubleError = FALSE
   SInsts <- MCSInsts
   SIds <- MCSIds
